@@ -10,6 +10,7 @@ import hashlib
 import json
 import os
 import random
+import signal
 import sys
 import warnings
 
@@ -255,7 +256,21 @@ def warmup(seed):
             pass
 
 
+CASE_LIMIT = float(os.environ.get("VERIF_DETENV_CASE_LIMIT", "30"))
+
+
+class _CaseTimeout(BaseException):
+    pass
+
+
+def _on_alarm(signum, frame):
+    raise _CaseTimeout()
+
+
 def main():
+    import signal as _s
+
+    _s.signal(_s.SIGALRM, _on_alarm)
     job = json.load(sys.stdin)
     env = job["env"]
     cases = job["cases"]
@@ -279,9 +294,16 @@ def main():
                 random.random()
                 np.random.random()
             try:
+                # bounded runs: a case that does not return (e.g. build_agglom looping when the partitioner makes no
+                # progress - observation O3) is cut after CASE_LIMIT seconds of real time and reported as such
+                signal.setitimer(signal.ITIMER_REAL, CASE_LIMIT)
                 res = run_one(c, env, clk)
+                signal.setitimer(signal.ITIMER_REAL, 0)
                 out[c["id"]] = json.dumps(canon(res), sort_keys=True)
+            except _CaseTimeout:
+                out[c["id"]] = "EXC did-not-return-within-limit"
             except Exception as e:
+                signal.setitimer(signal.ITIMER_REAL, 0)
                 out[c["id"]] = "EXC " + type(e).__name__ + ": " + str(e)[:200]
     print("RESULTS " + json.dumps(out))
 
